@@ -879,10 +879,8 @@ class Interp:
 
     def discriminant(self, v):
         if isinstance(v, CEnum):
-            d = v.disc
-            if d.c is not None:
-                return I(d.concrete(), "isize")
-            return I(z3.SignExt(64 - d.width, d.v) if d.width < 64 else d.v, "isize")
+            # the discriminant has the enum's own representation type (i8 for cmp::Ordering: MIR prints -1 as 255)
+            return v.disc
         if isinstance(v, Agg):
             if v.variant is None:
                 return I(0, "isize")
